@@ -542,13 +542,13 @@ def run(chk: lib.Check):
                     pools["elems"].append(el)
     if len(pools["elems"]) > 1500:
         pools["elems"] = rng.sample(pools["elems"], 1500)
-    gens = gen_cases(chk, pools, 80 if quick else 3000)
+    gens = gen_cases(chk, pools, 80 if quick else 1500)
     dcases = []
     rcases = []
     hist: dict[str, int] = {}
     depth_cols: set[tuple[int, int]] = set()
     kinds: dict[str, int] = {}
-    corr_budget = 160 if quick else 6000
+    corr_budget = 160 if quick else 2500
     for kind, feats, build in gens:
         root, ll = build(set())
         kinds[kind] = kinds.get(kind, 0) + 1
@@ -583,8 +583,11 @@ def run(chk: lib.Check):
             dcases.append(([b, r, a, ll], b1))
         # the reference reader vs lxml on what was written (attribute-only documents)
         if b1 is not None and kind in ("wrap", "root") and len(rcases) < (150 if quick else 1500) and all(ord(c) < 128 for c in b1.decode("utf-8")):
-            t2 = ET.fromstring(b1, xmlenc.parser())
-            if not any(el.text for el in t2.iter()):
+            try:
+                t2 = ET.fromstring(b1, xmlenc.parser())
+            except ET.XMLSyntaxError:
+                t2 = None
+            if t2 is not None and not any(el.text for el in t2.iter()):
                 body = b1.decode("utf-8").split("?>\n", 1)[1]
                 rcases.append((body, [lxml_view(t2), "\n"]))
     lap('generated_oracles')
